@@ -947,6 +947,18 @@ def c14(tier):
                 "corner geometry is also an invariant of the glyph model for the directions it covers. "
                 "every case is non-trivial" % (maxlen, "12x6" if tier == "quick" else "30x15"))
     r = common.rng("C14")
+    cfg = simple_cfg("MC_C14", {"MaxLen": 4 if tier == "quick" else 10, "MaxK": 1}, ["ModelC14", "Emit"])
+    res = run.model("MC_Arrow", cfg)
+    beh = common.tla_json_strings(res["lines"], "REPLAY")
+    btexts = [rows_text(b["rows"]) for b in beh]
+    bobs = observe.observe([{"input": t} for t in btexts], tag="C14M")
+    for b, t, o in zip(beh, btexts, bobs):
+        run.replayed += 1
+        if o["out"] != "return" or real_tuples(o["doc"]) != model_tuples(b["out"]):
+            run.drift += 1
+            if len(run.drift_samples) < 5:
+                run.drift_samples.append({"input": t, "model": b["out"]})
+        run.add_event({"props": ["C14arrow"], "rows": o["rows"], "doc": o["doc"], "arrow": b["arrow"]}, {"input": t, "arrow": b["arrow"]})
     cases = []
     lens = list(range(1, maxlen + 1))
     for d, gl in ARROWS.items():
